@@ -413,7 +413,9 @@ class BasinProxyFeature(np.lib.mixins.NDArrayOperatorsMixin):
 
     def __array__(self, dtype=None, copy=copy_if_needed, *args, **kwargs):
         if self._cache is None and self.is_scalar:
-            self._cache = self.feat_obj[:][self.basinmap]
+            self._cache = np.array(self.feat_obj[:][self.basinmap])
+            # The cached array (or views of it) is handed out to the user.
+            self._cache.setflags(write=False)
         else:
             # This is dangerous territory in terms of memory usage
             out_arr = np.empty((len(self.basinmap),) + self.feat_obj.shape[1:],
